@@ -10,7 +10,12 @@ transferred value is a *complete* table state: it satisfies the invariant and re
 including when the last doubling still has deferred migration pending and after several lock-array generations,
 because `Inv`/`Rel` quantify over all such states — so every object involved is an ordinary working table afterwards
 (C02 applies).  Which members the real special members transfer is tied by K2 (multi-object operations followed by
-full-state digests and workloads on both objects).  Allocator propagation policies are not modelled.
+full-state digests and workloads on both objects).  Allocator instances and the three propagation policies are
+modelled by `Obj`/`Policy` (Model/Objects.lean): which allocator each object ends up with, and that the
+allocator-extended constructors — which rebuild the lock array instead of adopting the source's list when the
+allocator differs — still hand over a complete table.  K2 runs the same requests against a build of the real table
+with an identity-carrying allocator for each of the eight policy combinations and also checks that every block is
+returned to the allocator instance it came from.
 -/
 namespace Cuckoo.Props.C11
 open Cuckoo Cuckoo.Model Cuckoo.Spec
@@ -53,6 +58,80 @@ theorem swap_shipped_breaks_bookkeeping (c : Cfg κ) (a b : Table κ ν) (ha : I
   have e2 : (swapShipped a b).2.nUnmig = a.nUnmig := rfl
   rw [e1, e2, hnone] at h1
   omega
+
+/-! ### allocator-aware special members -/
+
+theorem rebased_inv (c : Cfg κ) (t : Table κ ν) (b : Bool) (h : Inv c t) : Inv c (t.rebased b) := by
+  unfold Table.rebased
+  cases b with
+  | true => exact h
+  | false =>
+    exact ⟨h.S_pos, h.M_pow, h.cur_wf, h.locks_pow, h.locks_le, h.locks_ge, h.rem_eq, h.pending, h.unmig_empty, h.uniq, h.limit⟩
+
+theorem rebased_rel (c : Cfg κ) (t : Table κ ν) (b : Bool) (m : AMap κ ν) (h : Rel c t m) : Rel c (t.rebased b) m := by
+  unfold Table.rebased
+  cases b with
+  | true => exact h
+  | false => exact ⟨h.1, h.2, h.3⟩
+
+/-- every constructor — plain or allocator-extended, with an equal or a different allocator — yields a working table
+with the source's contents and settings, for every source state (pending migration, any lock-array history); the
+allocator is the source's (plain forms) or the given one (extended forms) -/
+theorem ctor_transfers_all (c : Cfg κ) (s : Obj κ ν) (a : Nat) (m : AMap κ ν) (h : Inv c s.t) (hr : Rel c s.t m) :
+    (Inv c s.copyCtor.t ∧ Rel c s.copyCtor.t m ∧ s.copyCtor.alloc = s.alloc) ∧
+    (Inv c (s.copyCtorA a).t ∧ Rel c (s.copyCtorA a).t m ∧ (s.copyCtorA a).alloc = a) ∧
+    (Inv c s.moveCtor.t ∧ Rel c s.moveCtor.t m ∧ s.moveCtor.alloc = s.alloc) ∧
+    (Inv c (s.moveCtorA a).t ∧ Rel c (s.moveCtorA a).t m ∧ (s.moveCtorA a).alloc = a) :=
+  ⟨⟨h, hr, rfl⟩, ⟨rebased_inv c _ _ h, rebased_rel c _ _ m hr, rfl⟩, ⟨h, hr, rfl⟩,
+   ⟨rebased_inv c _ _ h, rebased_rel c _ _ m hr, rfl⟩⟩
+
+/-- settings survive every constructor, too -/
+theorem ctor_keeps_settings (s : Obj κ ν) (a : Nat) :
+    (s.copyCtorA a).t.mlf = s.t.mlf ∧ (s.copyCtorA a).t.mhp = s.t.mhp ∧ (s.copyCtorA a).t.workers = s.t.workers ∧
+    (s.moveCtorA a).t.mlf = s.t.mlf ∧ (s.moveCtorA a).t.mhp = s.t.mhp ∧ (s.moveCtorA a).t.workers = s.t.workers ∧
+    (s.copyCtorA a).t.size = s.t.size ∧ (s.moveCtorA a).t.size = s.t.size := by
+  unfold Obj.copyCtorA Obj.moveCtorA Table.rebased Table.copy
+  cases (a == s.alloc) <;> exact ⟨rfl, rfl, rfl, rfl, rfl, rfl, rfl, rfl⟩
+
+/-- assignment under every propagation policy: the destination takes the source's complete state; its allocator is
+replaced exactly when the policy says so -/
+theorem assign_transfers_all (c : Cfg κ) (p : Policy) (d s : Obj κ ν) (m : AMap κ ν) (h : Inv c s.t) (hr : Rel c s.t m) :
+    Inv c (Obj.copyAssign p d s).t ∧ Rel c (Obj.copyAssign p d s).t m ∧
+    (Obj.copyAssign p d s).alloc = (if p.pocca then s.alloc else d.alloc) ∧
+    Inv c (Obj.moveAssign p d s).t ∧ Rel c (Obj.moveAssign p d s).t m ∧
+    (Obj.moveAssign p d s).alloc = (if p.pocma then s.alloc else d.alloc) :=
+  ⟨h, hr, rfl, h, hr, rfl⟩
+
+/-- without propagation the destination never changes its allocator — so its memory keeps coming from, and going
+back to, the instance it was constructed with -/
+theorem assign_keeps_allocator (d s : Obj κ ν) :
+    (Obj.copyAssign ⟨false, false, false⟩ d s).alloc = d.alloc ∧ (Obj.moveAssign ⟨false, false, false⟩ d s).alloc = d.alloc :=
+  ⟨rfl, rfl⟩
+
+/-- swap under every policy for which the standard defines it: complete states exchanged, allocators exchanged
+exactly when they propagate, and each object's allocator afterwards is one that owns its (exchanged) storage -/
+theorem swap_with_allocators (c : Cfg κ) (p : Policy) (a b : Obj κ ν) (ma mb : AMap κ ν)
+    (ha : Inv c a.t) (hb : Inv c b.t) (hra : Rel c a.t ma) (hrb : Rel c b.t mb) (hok : Obj.swapOK p a b = true) :
+    Inv c (Obj.swap p a b).1.t ∧ Rel c (Obj.swap p a b).1.t mb ∧ Inv c (Obj.swap p a b).2.t ∧ Rel c (Obj.swap p a b).2.t ma ∧
+    (Obj.swap p a b).1.alloc = b.alloc ∧ (Obj.swap p a b).2.alloc = a.alloc := by
+  refine ⟨hb, hrb, ha, hra, ?_, ?_⟩
+  all_goals
+    unfold Obj.swapOK at hok
+    unfold Obj.swap
+    cases hp : p.pocs
+    · simp [hp] at hok ⊢
+      first | exact hok | exact hok.symm
+    · simp
+
+/-- self-assignment and self-swap leave the object as it was -/
+theorem self_assign_identity (p : Policy) (a : Obj κ ν) :
+    (Obj.copyAssign p a a).t = a.t ∧ (Obj.copyAssign p a a).alloc = a.alloc ∧
+    (Obj.swap p a a).1.t = a.t ∧ (Obj.swap p a a).1.alloc = a.alloc := by
+  unfold Obj.copyAssign Obj.swap swapTables Table.copy
+  cases p.pocca <;> cases p.pocs <;> exact ⟨rfl, rfl, rfl, rfl⟩
+
+example : Obj.swapOK ⟨false, false, false⟩ (⟨Table.init (κ := Nat) (ν := Nat) ⟨2, 4, id, true, true, 40⟩ 4, 1⟩)
+    ⟨Table.init ⟨2, 4, id, true, true, 40⟩ 4, 1⟩ = true := rfl
 
 /-- the repaired swap is an involution -/
 theorem swap_swap (a b : Table κ ν) :
